@@ -1,9 +1,11 @@
 """C08 - jump-level models execute by the documented statement semantics.
 Oracle: RefVM; monitors: FrozenModel mutation sanitizer, WatchedOptions (statement counter), log recorder."""
 import copy
+import datetime
 import itertools
 import json
 import random
+import re
 
 from .. import core, gen_prog, refval
 from ..monitors import FrozenDict, FrozenList, ModelMutated, WatchedOptions, freeze
@@ -219,15 +221,51 @@ def rand_stmts(rnd, n, names, infunc):
     return out
 
 
+TRUTH_VALUES = [None, True, False, 0, 0.0, -0.0, 1, 0.5, '', 'a', '0', 'false', [], [0], [[]], {}, {'a': None}, {'': 0},
+                datetime.datetime(1970, 1, 1), datetime.date(1970, 1, 1), datetime.datetime(1970, 1, 1, tzinfo=datetime.timezone.utc), re.compile('')]
+
+
+def run_truthiness(acc, api):
+    """Directed: a conditional jump on a value of every type (held in a global, in a local, produced by a call) is taken exactly
+    when the value is truthy in the language."""
+    for ix, v in enumerate(TRUTH_VALUES):
+        for where in ('global', 'local', 'call', 'negated'):
+            cond = V('c')
+            if where == 'call':
+                cond = {'function': {'name': 'ident', 'args': [V('c')]}}
+            elif where == 'negated':
+                cond = {'unary': {'op': '!', 'expr': V('c')}}
+            body = [{'jump': {'label': 'A', 'expr': cond}}, {'expr': {'expr': {'function': {'name': 'systemLog', 'args': [{'string': 'not taken'}]}}}},
+                    {'label': 'A'}, {'expr': {'expr': {'function': {'name': 'systemLog', 'args': [{'string': 'end'}]}}}}, {'return': {'expr': V('c')}}]
+            ident = {'function': {'name': 'ident', 'args': ['x'], 'statements': [{'return': {'expr': V('x')}}]}}
+            if where == 'local':
+                plain = {'statements': [{'function': {'name': 'ff', 'args': ['c'], 'statements': body}},
+                                        {'return': {'expr': {'function': {'name': 'ff', 'args': [V('g')]}}}}]}
+                init = {'g': copy.deepcopy(v), 'c': 'global-c'}
+            else:
+                plain = {'statements': [ident] + body}
+                init = {'c': copy.deepcopy(v)}
+            check_model(freeze(plain), plain, init, 100, acc, api, lambda: {'model': plain, 'init': refval.enc(init), 'limit': 100})
+            acc.case(('truthiness', ix, where), True)
+            acc.count('truthiness_jumps')
+            acc.cover('jump_condition_types', refval.rtype(v))
+
+
 def run_random(spec, acc, api):
     bare_script, lib, rt_err = api
     base = spec['seed'] * 1000003 + spec['shard'] * 7919 + 23
     shared = {}
+    if spec['shard'] == 0:
+        run_truthiness(acc, api)
     for i in range(spec['n']):
         rnd = random.Random(base + i)
         if rnd.random() < 0.8:
             plain = {'statements': rand_stmts(rnd, rnd.randint(1, 40), ['n', 'm', 'c'], False)}
             init = {'n': 0, 'm': rnd.choice([0, 2, 'a', None]), 'c': rnd.choice([False, True, 0, 1])}
+            if rnd.random() < 0.3:
+                # conditions of every value type: the truthiness of the language, not of the host language, decides a jump
+                init['c'] = copy.deepcopy(rnd.choice(TRUTH_VALUES))
+                init['m'] = copy.deepcopy(rnd.choice(TRUTH_VALUES))
         else:
             gen = gen_prog.ProgGen(rnd, maxdepth=3, probes=False)
             text = '\n'.join(pp(gen.program()))
